@@ -9,6 +9,7 @@ import (
 
 	"github.com/unixpickle/model3d/model3d"
 	"pgregory.net/rapid"
+	"verifharness/gen"
 	"verifharness/kit"
 	"verifharness/m3"
 )
@@ -210,12 +211,12 @@ func (c soupCase) tris() []kit.Tri {
 }
 
 func drawFace(t *rapid.T, k int) [3]int {
-	a := rapid.IntRange(0, k-1).Draw(t, "a")
-	b := rapid.IntRange(0, k-2).Draw(t, "b")
+	a := gen.Int(t, 0, k-1, "a")
+	b := gen.Int(t, 0, k-2, "b")
 	if b >= a {
 		b++
 	}
-	c := rapid.IntRange(0, k-3).Draw(t, "c")
+	c := gen.Int(t, 0, k-3, "c")
 	lo, hi := a, b
 	if lo > hi {
 		lo, hi = hi, lo
@@ -234,7 +235,7 @@ func genSoup(t *rapid.T) soupCase {
 	switch c.Kind {
 	case "strip":
 		// a triangulated band of n quads; closed with or without a half twist, or left open
-		n := rapid.IntRange(3, 8).Draw(t, "n")
+		n := gen.Int(t, 3, 8, "n")
 		closing := rapid.SampledFrom([]string{"moebius", "annulus", "open"}).Draw(t, "closing")
 		c.K = 2 * (n + 1)
 		a := func(i int) int { return 2 * i }
@@ -254,30 +255,30 @@ func genSoup(t *rapid.T) soupCase {
 			c.Faces = append(c.Faces, [3]int{a0, a1, b0}, [3]int{a1, b1, b0})
 		}
 	case "tetra":
-		c.K = rapid.IntRange(4, 8).Draw(t, "k")
+		c.K = gen.Int(t, 4, 8, "k")
 		c.Faces = [][3]int{{0, 1, 2}, {0, 3, 1}, {1, 3, 2}, {0, 2, 3}}
-		extra := rapid.IntRange(0, 5).Draw(t, "extra")
+		extra := gen.Int(t, 0, 5, "extra")
 		for i := 0; i < extra; i++ {
 			c.Faces = append(c.Faces, drawFace(t, c.K))
 		}
 	default:
-		c.K = rapid.IntRange(3, 9).Draw(t, "k")
-		m := rapid.IntRange(1, 14).Draw(t, "m")
+		c.K = gen.Int(t, 3, 9, "k")
+		m := gen.Int(t, 1, 14, "m")
 		for i := 0; i < m; i++ {
 			c.Faces = append(c.Faces, drawFace(t, c.K))
 		}
 	}
 	// random re-orientations and removals on top
-	nf := rapid.IntRange(0, 4).Draw(t, "nflip")
+	nf := gen.Int(t, 0, 4, "nflip")
 	for i := 0; i < nf; i++ {
-		j := rapid.IntRange(0, len(c.Faces)-1).Draw(t, "flip")
+		j := gen.Int(t, 0, len(c.Faces)-1, "flip")
 		c.Faces[j][0], c.Faces[j][1] = c.Faces[j][1], c.Faces[j][0]
 	}
-	if len(c.Faces) > 1 && rapid.IntRange(0, 3).Draw(t, "drop") == 0 {
-		j := rapid.IntRange(0, len(c.Faces)-1).Draw(t, "dropidx")
+	if len(c.Faces) > 1 && gen.Int(t, 0, 3, "drop") == 0 {
+		j := gen.Int(t, 0, len(c.Faces)-1, "dropidx")
 		c.Faces = append(c.Faces[:j], c.Faces[j+1:]...)
 	}
-	if rapid.IntRange(0, 3).Draw(t, "negzero") == 0 {
+	if gen.Int(t, 0, 3, "negzero") == 0 {
 		for range c.Faces {
 			c.Neg = append(c.Neg, rapid.Bool().Draw(t, "neg"))
 		}
@@ -313,9 +314,9 @@ func genDmg(t *rapid.T) dmgCase {
 	case "open":
 		c.Dmg.Remove = genIdx(t, 4, "remove")
 	case "pinch":
-		n := rapid.IntRange(1, 2).Draw(t, "nmerge")
+		n := gen.Int(t, 1, 2, "nmerge")
 		for i := 0; i < n; i++ {
-			c.Dmg.Merge = append(c.Dmg.Merge, [2]int{rapid.IntRange(0, 4000).Draw(t, "ma"), rapid.IntRange(0, 4000).Draw(t, "mb")})
+			c.Dmg.Merge = append(c.Dmg.Merge, [2]int{gen.Int(t, 0, 4000, "ma"), gen.Int(t, 0, 4000, "mb")})
 		}
 	case "flip":
 		c.Dmg.Flip = genIdx(t, 6, "flip")
@@ -324,7 +325,7 @@ func genDmg(t *rapid.T) dmgCase {
 		c.Dmg.Flip = genIdx(t, 4, "flip")
 		c.Dmg.Dup = genIdx(t, 1, "dup")
 		if rapid.Bool().Draw(t, "merge") {
-			c.Dmg.Merge = append(c.Dmg.Merge, [2]int{rapid.IntRange(0, 4000).Draw(t, "ma"), rapid.IntRange(0, 4000).Draw(t, "mb")})
+			c.Dmg.Merge = append(c.Dmg.Merge, [2]int{gen.Int(t, 0, 4000, "ma"), gen.Int(t, 0, 4000, "mb")})
 		}
 	}
 	return c
@@ -377,23 +378,23 @@ type diag2Case struct {
 func genDiag2(t *rapid.T) diag2Case {
 	c := diag2Case{Kind: rapid.SampledFrom([]string{"soup", "mesh", "mesh"}).Draw(t, "kind")}
 	if c.Kind == "soup" {
-		c.K = rapid.IntRange(2, 8).Draw(t, "k")
+		c.K = gen.Int(t, 2, 8, "k")
 		shape := rapid.SampledFrom([]string{"random", "cycles"}).Draw(t, "shape")
 		if shape == "cycles" {
 			// disjoint directed cycles over the pool, then damage
 			i := 0
 			for i+2 <= c.K {
-				n := rapid.IntRange(2, c.K-i).Draw(t, "len")
+				n := gen.Int(t, 2, c.K-i, "len")
 				for j := 0; j < n; j++ {
 					c.Edges = append(c.Edges, [2]int{i + j, i + (j+1)%n})
 				}
 				i += n
 			}
 		} else {
-			m := rapid.IntRange(1, 12).Draw(t, "m")
+			m := gen.Int(t, 1, 12, "m")
 			for i := 0; i < m; i++ {
-				a := rapid.IntRange(0, c.K-1).Draw(t, "a")
-				b := rapid.IntRange(0, c.K-2).Draw(t, "b")
+				a := gen.Int(t, 0, c.K-1, "a")
+				b := gen.Int(t, 0, c.K-2, "b")
 				if b >= a {
 					b++
 				}
@@ -407,7 +408,7 @@ func genDiag2(t *rapid.T) diag2Case {
 	case "open":
 		c.Dmg.Remove = genIdx(t, 3, "remove")
 	case "pinch":
-		c.Dmg.Merge = append(c.Dmg.Merge, [2]int{rapid.IntRange(0, 4000).Draw(t, "ma"), rapid.IntRange(0, 4000).Draw(t, "mb")})
+		c.Dmg.Merge = append(c.Dmg.Merge, [2]int{gen.Int(t, 0, 4000, "ma"), gen.Int(t, 0, 4000, "mb")})
 	case "flip":
 		c.Dmg.Flip = genIdx(t, 4, "flip")
 	case "mixed":
@@ -415,7 +416,7 @@ func genDiag2(t *rapid.T) diag2Case {
 		c.Dmg.Flip = genIdx(t, 3, "flip")
 		c.Dmg.Dup = genIdx(t, 1, "dup")
 		if rapid.Bool().Draw(t, "merge") {
-			c.Dmg.Merge = append(c.Dmg.Merge, [2]int{rapid.IntRange(0, 4000).Draw(t, "ma"), rapid.IntRange(0, 4000).Draw(t, "mb")})
+			c.Dmg.Merge = append(c.Dmg.Merge, [2]int{gen.Int(t, 0, 4000, "ma"), gen.Int(t, 0, 4000, "mb")})
 		}
 	}
 	return c
@@ -477,7 +478,7 @@ type majCase struct {
 
 func genMaj(t *rapid.T) majCase {
 	c := majCase{Spec: genMeshSpec(t, []string{"nest", "nest", "nest", "lattice"}, 6, 3, false), Seed: rapid.Uint64().Draw(t, "seed")}
-	if rapid.IntRange(0, 2).Draw(t, "open") == 0 {
+	if gen.Int(t, 0, 2, "open") == 0 {
 		c.Remove = genIdx(t, 3, "remove")
 	}
 	return c
